@@ -21,6 +21,8 @@ fi
 FLAV=$(flavour_of "$PROP")
 RACE=""
 [ "$PROP" = C20 ] && RACE=race
+# scratch trees of checks that were killed before their EXIT trap ran (no check lasts 10 hours)
+find /var/tmp -maxdepth 1 -name 'verif-C??-??????' -mmin +600 -exec rm -rf {} + 2>/dev/null
 SCR=$(mktemp -d /var/tmp/verif-$PROP-XXXXXX) || exit 2
 trap 'rm -rf "$SCR"' EXIT
 "$VERIF_DIR/build.sh" "$SCR" "$FLAV" $RACE || exit 2
